@@ -21,6 +21,7 @@ type Verdict struct {
 	Output  string // solver output for refuted / undecided
 	Model   string
 	Script  string // path of the script (kept for refuted/undecided)
+	CondOn  string // discharged, but only under the assumption of this undischarged obligation
 }
 
 var dumpAll bool
@@ -147,7 +148,13 @@ func race(script, file string, timeoutMs int, cover bool, sliced ...string) (str
 		f := fmt.Sprintf("%s.hop%d.smt2", file, k+1)
 		os.WriteFile(f, []byte(sc), 0o644)
 		for _, vi := range []int{0, 1} {
-			v := &variant{name: fmt.Sprintf("%s/slice%d", variants[vi].name, k+1), cmd: variants[vi].cmd, proveOnly: true}
+			label := fmt.Sprintf("slice%d", k+1)
+			if k == 3 {
+				label = "inst"
+			} else if k == 4 {
+				label = "inst+slice"
+			}
+			v := &variant{name: variants[vi].name + "/" + label, cmd: variants[vi].cmd, proveOnly: true}
 			n++
 			go func(v *variant, f string) {
 				r, out, dt := runSolverCtx(ctx, v.cmd(f, timeoutMs))
@@ -188,6 +195,7 @@ func discharge(results []*FuncResult, workers int, timeoutMs int, seed int, keep
 		script  string // all assumptions
 		script1 string // relevant assumptions (closure)
 		script2 string // relevant assumptions within two hops
+		script3 string // relevant assumptions within one hop
 	}
 	var jobs []job
 	for _, fr := range results {
@@ -200,6 +208,10 @@ func discharge(results []*FuncResult, workers int, timeoutMs int, seed int, keep
 				j.script2 = fr.VC.script(o, 2)
 				if j.script2 == j.script1 {
 					j.script2 = ""
+				}
+				j.script3 = fr.VC.script(o, 1)
+				if j.script3 == j.script2 || j.script3 == j.script1 {
+					j.script3 = ""
 				}
 				if j.script1 == j.script {
 					j.script1 = ""
@@ -228,7 +240,23 @@ func discharge(results []*FuncResult, workers int, timeoutMs int, seed int, keep
 				if j.o.Cover {
 					tmo = 1500
 				}
-				r, backend, dt, outs := race(script, file, tmo, j.o.Cover, j.script1, j.script2)
+				// trigger-based pre-instantiation (see preinst.go) of the full script and of the
+				// smallest slice
+				inst, instS := "", ""
+				if !j.o.Cover && strings.Contains(script, ":pattern") {
+					inst, _ = preInstantiate(script)
+					small := j.script3
+					if small == "" {
+						small = j.script2
+					}
+					if small == "" {
+						small = j.script1
+					}
+					if small != "" {
+						instS, _ = preInstantiate(small)
+					}
+				}
+				r, backend, dt, outs := race(script, file, tmo, j.o.Cover, j.script1, j.script2, j.script3, inst, instS)
 				v.TimeS, v.Backend = dt, backend
 				status := "undecided"
 				switch {
